@@ -552,6 +552,8 @@ def strip_casts(e):
 
 def walk(e):
     """All sub-terms of an expression."""
+    if isinstance(e, tuple) and not e:
+        return
     if isinstance(e, tuple) and e and not isinstance(e[0], str):
         # a plain sequence of expressions (e.g. call arguments)
         for x in e:
